@@ -318,3 +318,40 @@ def file_field_decision(p: Program, rep=None):
     if n_kind < 2:
         out.append(("undecided", ne, None, "", f"expected a File and a Field construction path in next_event, found {n_kind}", []))
     return out
+
+
+def parseparam_quote_parity(p: Program, rep=None):
+    """`_parseparam` (the header-parameter splitter behind parse_header, a copy of the stdlib's) decides whether a ';' is
+    inside a quoted string by the parity of the quotes before it; escaped quotes (backslash quote) must not count. A
+    Content-Disposition such as  name="doc\\"s"; filename="big.bin"  otherwise loses (or gains) its filename parameter, which
+    flips the File/Field classification."""
+    m = p.module("baize.utils")
+    fn = m.functions.get("_parseparam")
+    if fn is None:
+        raise AnalysisError("baize.utils._parseparam vanished")
+    if rep is not None:
+        rep.analysed(fn.fq)
+    out = []
+    n = 0
+
+    def count_of(e: ast.AST, lit: str):
+        return isinstance(e, ast.Call) and isinstance(e.func, ast.Attribute) and e.func.attr == "count" and e.args and isinstance(e.args[0], ast.Constant) and e.args[0].value == lit
+
+    for b in ast.walk(fn.node):
+        if isinstance(b, ast.BinOp) and isinstance(b.op, ast.Mod) and isinstance(b.right, ast.Constant) and b.right.value == 2:
+            quotes = [c for c in ast.walk(b.left) if count_of(c, '"')]
+            if not quotes:
+                continue
+            n += 1
+            L = b.left
+            ok = isinstance(L, ast.BinOp) and isinstance(L.op, ast.Sub) and count_of(L.left, '"') and count_of(L.right, '\\"') \
+                and [ast.unparse(a) for a in L.left.args[1:]] == [ast.unparse(a) for a in L.right.args[1:]]
+            if ok:
+                out.append(("ok", fn, None, "", "_parseparam: quote parity discounts escaped quotes (count('\"') - count('\\\\\"'))", []))
+            else:
+                out.append(("violation", fn, b, f"quote parity {ast.unparse(b.left)[:60]}",
+                            "_parseparam decides 'inside a quoted string' from the number of quotes without discounting escaped ones: a parameter value containing an escaped quote shifts the split, "
+                            "so a part's filename parameter is lost (an upload is treated as an in-memory field and counted against the field limit) or invented", []))
+    if n == 0:
+        out.append(("undecided", fn, None, "", "_parseparam: no quote-parity test found (splitter idiom not recognised)", []))
+    return out
